@@ -329,12 +329,12 @@ def run_sortring(i):
     out = {"viol": [], "n": 0}
     try:
         need = 0
-        for s_ in range(rng.randint(1, 2)):
-            evs, info = c16.gen_stream(rng, 300 + s_, "ok")
+        for s_ in range(rng.randint(1, 3)):
+            evs, info = c16.gen_stream(rng, 300 + s_, "ok", before_start=(rng.random() < 0.5) if s_ else None)
             need = max(need, info["need"])
             obs.write_stream(wd, "L", 1, 300 + s_, obs.thread_meta(300 + s_, 1, "L", cpus=[(0, 0)], extra=c16.MARK),
                              [c16.to_tuple(e) for e in evs])
-        for n in sorted(set([2 * need + 4, need + 2, max(2, need), rng.choice([2, 3, 4, 8, 16, 64])])):
+        for n in sorted(set([2 * need + 4, need + 2, max(2, need), rng.choice([2, 3, 4, 8, 16, 64]), 10 ** 6])):
             d = wd + "-n%d" % n
             shutil.copytree(wd, d)
             r = emu.run_tool(build, "ovnisort", ["-n", str(n), d], timeout=30, env=ENV)
